@@ -26,7 +26,7 @@ func c20QueryRowx(db *sqlx.DB, query string, args ...interface{}) *sqlx.Row {
 	c20Log = append(c20Log, query)
 	return nil
 }
-func c20StructScan(r *sqlx.Row, dest interface{}) error          { return c20Err }
+func c20StructScan(r *sqlx.Row, dest interface{}) error         { return c20Err }
 func c20MapScan(r *sqlx.Row, dest map[string]interface{}) error { return c20Err }
 func c20Queryx(db *sqlx.DB, query string, args ...interface{}) (*sqlx.Rows, error) {
 	c20Log = append(c20Log, query)
